@@ -26,11 +26,19 @@ THEOREMS = [
 ]
 RULE = ("seeded formula DAGs over 1-3 measurements (all operators, shared sub-expressions), "
         "sigma/|mu| in [1e-3, 0.5] or 0, and sources at exactly 0 +/- s or with sigma/|mu| up to 5, "
+        "DOMAIN-EDGE formulas (sqrt, ln, log10, asin, acos, non-integer powers, two-argument log on "
+        "either side, measured exponents: the argument -- a source, a product / quotient / sum / "
+        "difference of two, shifted by a constant -- has its central value 0.3..2 sigma inside the "
+        "domain, exactly on its boundary, or up to 1 sigma outside, so that a noticeable part of the draws "
+        "is undefined and must be discarded), "
         "correlation structure in {none, random PD, near-singular "
         "PD, cancelling in sum, one pair of three, jointly non-PD, rho=+-1 for two sources}, sample size "
         "7/100/2000 set globally or per quantity (also pinned to the value the global size has at "
         "that moment); 40 % of the cases have a history before the judged read (range, size, "
-        "strategy, recalculate, method switch, global size; sources and correlations CHANGED and the "
+        "strategy, recalculate, method switch, global size; LOOKING at the result: show_histogram "
+        "with any bin count / range window, printing; BYSTANDERS: a figure with a fit or a function "
+        "drawn, another quantity configured and simulated, a function run under a temporary sample "
+        "size; sources and correlations CHANGED and the "
         "result recalculated under Monte Carlo or while switched to the derivative method -- the "
         "judged read is then compared with the model on the current values and on draws recorded "
         "after the recalculation); numpy.random.normal is recorded while the library runs and the recorded offset "
@@ -146,7 +154,8 @@ def cancelling3(rng):
 
 
 PRE_KINDS = ["range", "range", "range-noread", "size", "size-reset", "mode", "custom", "conf",
-             "recalc", "method", "global-recalc", "read", "edit-recalc", "edit-recalc", "pin-global"]
+             "recalc", "method", "global-recalc", "read", "edit-recalc", "edit-recalc", "pin-global",
+             "bystander", "bystander", "display", "print"]
 
 
 def gen_edit(rng, n_meas, errs, raw):
@@ -195,6 +204,22 @@ def gen_prelude(rng, case=None, force=None):
             # global size changes: the quantity keeps ITS size
             out.append([k, rng.choice([6, 13, 40]), rng.random() < 0.6, rng.random() < 0.8])
             continue
+        if k == "bystander":
+            # something is done to OTHER objects (a figure drawn, another quantity simulated, a
+            # function run under a temporary sample size) between the configuration and the read:
+            # [kind, what, read before?, recalculate() after?, global size set just before (or 0)]
+            out.append([k, rng.choice(M.BYSTANDERS), rng.random() < 0.5, rng.random() < 0.6,
+                        rng.choice([0, 0, 6, 13, 40])])
+            continue
+        if k == "display":
+            # the histogram of the result is looked at: [kind, bins, call form, window?, read before?,
+            # strategy in force while looking]
+            out.append([k, rng.choice([100, 20, 10, 30, 250]), rng.choice(["positional", "keyword"]),
+                        rng.random() < 0.4, rng.random() < 0.5, rng.choice(["mean", "mean", "mode"])])
+            continue
+        if k == "print":
+            out.append([k, rng.choice(["str", "repr", "format"])])
+            continue
         if k in ("range", "range-noread"):
             a, b = sorted([rng.uniform(0.05, 0.95), rng.uniform(0.05, 0.95)])
             if rng.random() < 0.5:
@@ -242,6 +267,8 @@ def gen_case(rng, sizes, force_kind=None, force_pre=None):
         return gen_overflow_case(rng, sizes)
     if force_kind == "zerocentre":
         return gen_zerocentre_case(rng, sizes, force_pre)
+    if force_kind == "domain-edge":
+        return gen_domain_case(rng, sizes, force_pre)
     need3 = force_kind in ("near", "nonpd", "partial", "zerosigma", "cancel")
     target = 3 if need3 else (2 if force_kind == "unit" else rng.choice([1, 2, 2, 3, 3, 3]))
     while True:
@@ -354,11 +381,15 @@ def gen_zerocentre_case(rng, sizes, force_pre=None):
             else:
                 vals[i] = rng.choice([1, -1]) * 10 ** rng.uniform(-2, 0.3)
                 errs.append(abs(vals[i]) * rng.uniform(0.5, 5))
+        elif vals[i] == 0:
+            # a reading of exactly 0 handed over by the formula generator: it carries an uncertainty
+            # too (|0| * ratio would make it an exact number, which takes no correlation)
+            errs.append(rng.choice([0.5, 1.0, 0.1, round(rng.uniform(0.05, 2), 3)]))
         else:
             errs.append(abs(vals[i]) * 10 ** rng.uniform(-3, math.log10(0.5)))
     c["vals"] = [bits(v) for v in vals]
     c["errs"] = [bits(e) for e in errs]
-    used = used_vars(c)
+    used = [i for i in used_vars(c) if errs[i] > 0]
     rho = []
     if len(used) == 2 and rng.random() < 0.5:
         rho = [[used[0], used[1], bits(rng.uniform(-0.9, 0.9))]]
@@ -375,6 +406,172 @@ def gen_zerocentre_case(rng, sizes, force_pre=None):
     c["npseed"] = rng.randrange(2 ** 32)
     c["pre"] = gen_prelude(rng, c, force=force_pre)
     return c
+
+
+# operators with a restricted domain: name -> (how the node is built from the argument node `a`,
+# boundaries as (b, +1: defined above b / -1: defined below b))
+EDGE_OPS = {
+    "sqrt": [(0.0, 1)], "ln": [(0.0, 1)], "log10": [(0.0, 1)],
+    "asin": [(1.0, -1), (-1.0, 1)], "acos": [(1.0, -1), (-1.0, 1)],
+    "pow-const": [(0.0, 1)],        # arg ** 0.5, 1.5, -0.5, 2.5, 0.25
+    "log-arg": [(0.0, 1)],          # log(base constant, arg)
+    "log-base": [(0.0, 1)],         # log(arg, x constant)
+    "pow-measured": [(0.0, 1)],     # arg ** (measured exponent)
+    "log-measured-base": [(0.0, 1)],  # log(measured base, arg)
+}
+EDGE_INNER = ["m0", "m0", "m0", "m0*m1", "m0/m1", "m0+m1", "m0-m1", "c*m0"]
+EDGE_OUTER = ["none"] * 8 + ["add-source", "add-source", "mul-const", "neg", "sin", "square", "recip",
+                             "atan", "sub-own-source", "exp"]
+
+
+def gen_domain_case(rng, sizes, force_pre=None):
+    """'draws on which the formula is undefined are discarded': the argument of an operator with a
+    restricted domain is centred d sigma from the boundary of the domain (d in [0.3, 2] inside,
+    0 = on the boundary, down to -1 = outside), sigma being the first-order spread of the argument;
+    so 2 ... 85 % of the draws are undefined"""
+    while True:
+        op = rng.choice(sorted(EDGE_OPS))
+        inner = rng.choice(EDGE_INNER)
+        nsrc = 1 if inner in ("m0", "c*m0") else 2
+        vals, errs = [], []
+        for i in range(nsrc):
+            v = rng.choice([1, -1]) * 10 ** rng.uniform(-0.5, 0.7)
+            r = 10 ** rng.uniform(-2, -0.5)
+            if inner == "m0/m1" and i == 1:
+                v = rng.choice([1, -1]) * rng.uniform(0.5, 4)
+                r = 10 ** rng.uniform(-2.5, -1)          # the denominator stays away from 0
+            vals.append(v)
+            errs.append(abs(v) * r)
+        rho_in = rng.uniform(-0.9, 0.9) if nsrc == 2 and rng.random() < 0.4 else 0.0
+        cst = rng.choice([2.0, 0.5, -1.5, 3.0, -0.25])
+        if inner == "m0":
+            u, g = vals[0], [1.0]
+        elif inner == "c*m0":
+            u, g = cst * vals[0], [cst]
+        elif inner == "m0*m1":
+            u, g = vals[0] * vals[1], [vals[1], vals[0]]
+        elif inner == "m0/m1":
+            u, g = vals[0] / vals[1], [1 / vals[1], -vals[0] / vals[1] ** 2]
+        elif inner == "m0+m1":
+            u, g = vals[0] + vals[1], [1.0, 1.0]
+        else:
+            u, g = vals[0] - vals[1], [1.0, -1.0]
+        var = sum((g[i] * errs[i]) ** 2 for i in range(nsrc))
+        if nsrc == 2:
+            var += 2 * rho_in * g[0] * g[1] * errs[0] * errs[1]
+        if var <= 0:
+            continue
+        su = math.sqrt(var)
+        if su < 1e-3 * max(abs(x) for x in vals) or su > 0.6:
+            continue          # cancelling spread / an argument wider than the domains at hand
+        b, side = rng.choice(EDGE_OPS[op])
+        t = rng.random()
+        where, d = ("inside", rng.uniform(0.3, 2.0)) if t < 0.6 else \
+            ("on-boundary", 0.0) if t < 0.75 else ("outside", -rng.uniform(0.2, 1.0))
+        target = b + side * d * su
+        nodes = [["var", i] for i in range(nsrc)]
+        ops = []
+        if inner == "m0" and rng.random() < 0.6:
+            vals[0] = target      # the source itself sits at the chosen distance (0 +/- s, 1 +/- s, ...)
+            a = 0
+        else:
+            if inner == "c*m0":
+                nodes += [["const", bits(cst)], ["bin", "mul", nsrc, 0]]
+                ops.append("mul")
+            elif inner != "m0":
+                o2 = {"m0*m1": "mul", "m0/m1": "div", "m0+m1": "add", "m0-m1": "sub"}[inner]
+                nodes.append(["bin", o2, 0, 1])
+                ops.append(o2)
+            a = len(nodes) - 1
+            nodes += [["const", bits(target - u)], ["bin", "add", a, len(nodes)]]
+            ops.append("add")
+            a = len(nodes) - 1
+        n_meas = nsrc
+        if op in ("sqrt", "ln", "log10", "asin", "acos"):
+            nodes.append(["un", op, a])
+            ops.append(op)
+        elif op == "pow-const":
+            nodes += [["const", bits(rng.choice([0.5, 1.5, -0.5, 2.5, 0.25]))], ["bin", "pow", a, len(nodes)]]
+            ops.append("pow")
+        elif op == "log-arg":
+            nodes += [["const", bits(rng.choice([2.0, 10.0, 0.5]))], ["bin", "log", len(nodes), a]]
+            ops.append("log")
+        elif op == "log-base":
+            nodes += [["const", bits(rng.choice([2.0, 5.0, 0.5]))], ["bin", "log", a, len(nodes)]]
+            ops.append("log")
+        else:       # a further source as exponent / as base
+            if n_meas >= 3:
+                continue
+            if op == "pow-measured":
+                vals.append(rng.choice([0.5, 1.5, 2.5, -0.5]) + rng.uniform(-0.1, 0.1))
+                errs.append(rng.uniform(0.01, 0.1))
+                nodes = [["var", n_meas]] + [_shift_node(x, n_meas) for x in nodes]
+                nodes.append(["bin", "pow", a + 1, 0])
+                ops.append("pow")
+            else:
+                vals.append(rng.choice([2.0, 10.0, 3.0]) * rng.uniform(0.9, 1.1))
+                errs.append(vals[-1] * rng.uniform(0.005, 0.03))
+                nodes = [["var", n_meas]] + [_shift_node(x, n_meas) for x in nodes]
+                nodes.append(["bin", "log", 0, a + 1])
+                ops.append("log")
+            # node 0 is the new source (variable index n_meas); the earlier variables keep theirs
+            n_meas += 1
+        e = len(nodes) - 1
+        outer = rng.choice(EDGE_OUTER)
+        if outer == "add-source":
+            if n_meas >= 3:
+                continue
+            vals.append(rng.choice([1, -1]) * rng.uniform(0.3, 3))
+            errs.append(abs(vals[-1]) * 10 ** rng.uniform(-2, -0.7))
+            nodes += [["var", n_meas], ["bin", rng.choice(["add", "mul"]), e, len(nodes)]]
+            ops.append(nodes[-1][1])
+            n_meas += 1
+        elif outer == "mul-const":
+            nodes += [["const", bits(rng.choice([2.0, -3.0, 0.5, 10.0]))], ["bin", "mul", len(nodes), e]]
+            ops.append("mul")
+        elif outer == "recip":
+            nodes += [["const", bits(1.0)], ["bin", "div", len(nodes), e]]
+            ops.append("div")
+        elif outer == "square":
+            nodes.append(["bin", "mul", e, e])
+            ops.append("mul")
+        elif outer == "sub-own-source":
+            src = next(i for i, x in enumerate(nodes) if x[0] == "var")
+            nodes.append(["bin", "sub", e, src])
+            ops.append("sub")
+        elif outer != "none":
+            nodes.append(["un", outer, e])
+            ops.append(outer)
+        # variable indices must be declared in order 0..n-1 as "var" nodes somewhere: they are
+        break
+    N = rng.choice([x for x in sizes if x >= (100 if where == "outside" else 7)] or [100])
+    # correlations: the pair inside the argument, and now and then the bystander sources too
+    rho = []
+    if rho_in:
+        rho.append([0, 1, bits(rho_in)])
+    if n_meas == 3 and rng.random() < 0.4:
+        R = random_pd(rng, 3)
+        rho = [[i, j, bits(R[i][j])] for i in range(3) for j in range(i + 1, 3)]
+    elif n_meas == 2 and not rho_in and nsrc == 1 and rng.random() < 0.3:
+        rho = [[0, 1, bits(rng.uniform(-0.9, 0.9))]]
+    c = {"nodes": nodes, "root": len(nodes) - 1, "vals": [bits(v) for v in vals],
+         "errs": [bits(x) for x in errs], "rho": rho, "n_meas": n_meas, "ops": ops,
+         "ref_value": bits(0.0), "kind": "domain-edge", "raw": {}, "rawsel": {},
+         "edge": {"op": op, "argument": inner, "boundary": b, "side": side, "where": where,
+                  "distance_in_sigma": d, "outer": outer}}
+    c["per"] = N if rng.random() < 0.5 else 0
+    c["global"] = rng.choice([5, 11, 50]) if c["per"] else N
+    c["method"] = rng.choice(["global", "value"])
+    c["npseed"] = rng.randrange(2 ** 32)
+    c["pre"] = gen_prelude(rng, c, force=force_pre) if (force_pre or rng.random() < 0.5) else []
+    return c
+
+
+def _shift_node(n, new_var):
+    """re-index a node after one node was put in front of the list (operand references + 1)"""
+    if n[0] in ("var", "const", "pair"):
+        return list(n)
+    return n[:2] + [j + 1 for j in n[2:]]
 
 
 # ---------------------------------------------------------------------------------------------
@@ -396,7 +593,7 @@ def apply_edit(m, ed):
         getattr(m, field)()
 
 
-def run_prelude(q, r, case, meas=None, cap=None, wlist=None):
+def run_prelude(q, r, case, meas=None, cap=None, wlist=None, by=None):
     """the history before the judged read; returns the (per-quantity, global) sample size that is
     configured at the end, whether an empty simulation was met, and `due`: the number of recorded
     draw calls at the last recalculate() that followed a change of a source (the stored simulation
@@ -485,7 +682,7 @@ def run_prelude(q, r, case, meas=None, cap=None, wlist=None):
         elif k == "global-recalc":
             read()
             glob = op[1]
-            q.set_monte_carlo_sample_size(glob)
+            M.set_global(q, glob)
             r.recalculate()
         elif k == "read":
             read()
@@ -529,6 +726,56 @@ def run_prelude(q, r, case, meas=None, cap=None, wlist=None):
                     mc_on()
                 else:
                     q.set_error_method(q.ErrorMethod.MONTE_CARLO)
+        elif k == "bystander":
+            _, what, read_first, recalc, newglob = op
+            if newglob:
+                glob = newglob if newglob != glob else newglob + 1
+                M.set_global(q, glob)
+            if read_first:
+                read()
+            if cap is not None:
+                cap.paused = True         # simulations of OTHER objects are not this result's draws
+            try:
+                by.run(what)
+            finally:
+                if cap is not None:
+                    cap.paused = False
+            if recalc or newglob:
+                # (a change of the global size alone keeps an existing simulation -- C16 notes -- so
+                # it is always followed by a recalculation here, as in "global-recalc")
+                r.recalculate()
+        elif k == "display":
+            _, bins, form, window, read_first, strat = op
+            import matplotlib.pyplot as plt
+            if strat == "mode":
+                r.mc.use_mode_with_confidence(0.68)
+            if read_first:
+                try:
+                    read()
+                except ValueError:
+                    pass      # see "mode"
+            kw = {}
+            if window:
+                s = r.mc.samples()
+                s = s[np.isfinite(s)]
+                if len(s) >= 4 and float(np.min(s)) < float(np.max(s)):
+                    kw["range"] = (float(np.quantile(s, 0.2)), float(np.quantile(s, 0.8)))
+            try:
+                if form == "keyword":
+                    r.mc.show_histogram(bins=bins, **kw)
+                else:
+                    r.mc.show_histogram(bins, **kw)
+            except Exception:  # noqa: BLE001
+                pass          # whether the picture can be drawn is not C02's subject
+            finally:
+                plt.close("all")
+            r.mc.use_mean_and_std()
+        elif k == "print":
+            try:
+                _ = {"str": str, "repr": repr, "format": "{}".format}[op[1]](r)
+            except Exception:  # noqa: BLE001
+                pass      # a pair that is not a number cannot be formatted (C09's subject)
+            seen_empty()
         elif k == "pin-global":
             _, newglob, read_between, recalc = op
             r.mc.sample_size = glob           # pinned to what happens to be the global size now
@@ -536,7 +783,7 @@ def run_prelude(q, r, case, meas=None, cap=None, wlist=None):
             if read_between:
                 read()
             glob = newglob if newglob != glob else newglob + 1
-            q.set_monte_carlo_sample_size(glob)
+            M.set_global(q, glob)
             if recalc:
                 r.recalculate()
         else:
@@ -551,6 +798,7 @@ def observe(q, case):
     with warnings.catch_warnings(record=True) as w, M.Capture() as cap:
         warnings.simplefilter("always")
         try:
+            by = M.Bystanders(q, None) if any(op[0] == "bystander" for op in case.get("pre", [])) else None
             vals = [unbits(b) for b in case["vals"]]
             errs = [unbits(b) for b in case["errs"]]
             meas = []
@@ -576,7 +824,7 @@ def observe(q, case):
                 r.error_method = q.ErrorMethod.MONTE_CARLO
             if case["per"]:
                 r.mc.sample_size = case["per"]
-            per_now, glob_now, empty_seen, due, rho_now, wmark = run_prelude(q, r, case, meas, cap, w)
+            per_now, glob_now, empty_seen, due, rho_now, wmark = run_prelude(q, r, case, meas, cap, w, by)
             out["wmark"] = wmark
             out["per_final"], out["global_final"], out["due"] = per_now, glob_now, due
             out["rho_eff"] = rho_now
@@ -645,8 +893,12 @@ def describe(case):
     for k, rs in case.get("rawsel", {}).items():
         raw["m" + k] = {"readings": raw["m" + k], "uncertainties": [unbits(b) for b in rs["es"]],
                         "then": rs["sels"]}
-    return "{} [corr={}, size per={} global={}, method={}, numpy seed={}{}{}]".format(
-        pretty(case), case.get("kind"), case["per"],
+    return "{} [corr={}{}, size per={} global={}, method={}, numpy seed={}{}{}]".format(
+        pretty(case), case.get("kind"),
+        " ({}: argument {:.2f} sigma {} the boundary {})".format(
+            case["edge"]["op"], abs(case["edge"]["distance_in_sigma"]), case["edge"]["where"],
+            case["edge"]["boundary"]) if case.get("edge") else "",
+        case["per"],
         case["global"], case["method"], case["npseed"],
         ", repeated measurements (raw data) {}".format(raw) if raw else "",
         ", history before the judged read: {}".format(case["pre"]) if case.get("pre") else "")
@@ -655,7 +907,7 @@ def describe(case):
 def judge(case, o, m, failures, dist):
     """compare one observation with the model answer; returns (judged, nontrivial)"""
     sig = "c02:{}".format(case.get("kind", "?"))
-    base = {"input": describe(case), "case": case}
+    base = {"input": describe(case), "case": case, "order": o.get("order")}
     if "exception" in o:
         et = o["exception"].split(":")[0]
         what = "Monte Carlo evaluation raised " + o["exception"]
@@ -782,12 +1034,14 @@ def ill_conditioned(o):
     return abs(M.min_eig(R)) < 1e-9
 
 
-def run(ctx, n_cases, sizes, ref=False, cases=None, force_kind=None, force_pre=None):
+def run(ctx, n_cases, sizes, ref=False, cases=None, force_kind=None, force_pre=None, obs=None,
+        independent=False):
     import qexpy as q
     if cases is None:
         cases = [gen_case(ctx.rng, sizes, force_kind=force_kind, force_pre=force_pre)
                  for _ in range(n_cases)]
-    obs = [observe(q, c) for c in cases]
+    if obs is None:
+        obs = [observe(q, c) for c in cases]
     lines, idx = [], []
     for i, (c, o) in enumerate(zip(cases, obs)):
         if "exception" not in o:
@@ -802,6 +1056,7 @@ def run(ctx, n_cases, sizes, ref=False, cases=None, force_kind=None, force_pre=N
         dist["sources:{}".format(len(o.get("order", [])))] += 1
         dist["size:{}".format(c["per"] or c["global"])] += 1
         dist["size-per-quantity" if c["per"] else "size-global"] += 1
+        dist["global-size-set-through-the-" + M.global_route(c["global"])] += 1
         dist["monte-carlo-method-set-" + ("globally" if c["method"] == "global" else "on-the-result")] += 1
         dist["repeated-measurement-sources:{}".format(len(c.get("raw", {})))] += 1
         for op in c.get("pre", []):
@@ -816,6 +1071,22 @@ def run(ctx, n_cases, sizes, ref=False, cases=None, force_kind=None, force_pre=N
             if op[0] == "pin-global":
                 dist["history-before-read:pin-global:" + (
                     "recalculate" if op[3] else "no-recalculate")] += 1
+            if op[0] == "bystander":
+                dist["history-before-read:bystander:" + op[1]] += 1
+                if not c["per"] or op[3] or op[4]:
+                    dist["history-before-read:bystander:then-simulated-with-the-global-size"
+                         if not c["per"] else
+                         "history-before-read:bystander:then-simulated-with-its-own-size"] += 1
+            if op[0] == "display":
+                dist["history-before-read:display:bins-{}{}{}".format(
+                    op[1], "+window" if op[3] else "", ":" + op[5] + "-strategy")] += 1
+        if c.get("edge"):
+            e = c["edge"]
+            dist["domain-edge:op:" + e["op"]] += 1
+            dist["domain-edge:argument:" + e["argument"]] += 1
+            dist["domain-edge:centre-" + e["where"]] += 1
+            if "samples" in o and len(o["samples"]) < (o.get("per_final") or o.get("global_final") or 0):
+                dist["domain-edge:some-draws-discarded"] += 1
         if c["per"] and c["per"] == c["global"]:
             dist["size-per-quantity-equal-to-global-at-start"] += 1
         dist["history-before-read:length-{}".format(len(c.get("pre", [])))] += 1
@@ -839,6 +1110,15 @@ def run(ctx, n_cases, sizes, ref=False, cases=None, force_kind=None, force_pre=N
                     fl, nt = [], nt2
                     dist["sources-in-another-row-order"] += 1
                     break
+        if independent and not fl:
+            # judged a second time WITHOUT the tables regenerated from the library: the formula is
+            # evaluated draw by draw with Python's math module (undefined = it raises), so that an
+            # operator table that was changed in a way the translator can follow -- the model then
+            # follows the code -- is still held against the mathematical function
+            f2 = reference_check(c, o)
+            if f2:
+                fl = [f2]
+            dist["judged-also-by-own-evaluation-of-the-formula (math module)"] += 1
         failures += fl
         if nt:
             nontrivial.add(canon_hash([c["nodes"], c["vals"], c["errs"], c["rho"], c["per"],
@@ -914,10 +1194,11 @@ def correspond(ctx):
     for kind, n in (("nonpd", ctx.n(30, 400)), ("unit", ctx.n(12, 150)), ("near", ctx.n(20, 300)),
                     ("zerosigma", ctx.n(20, 300)), ("overflow", ctx.n(12, 200)),
                     ("cancel", ctx.n(30, 400)), ("partial", ctx.n(15, 200)),
-                    ("zerocentre", ctx.n(30, 400)),
-                    ("pre:edit-recalc", ctx.n(50, 600)), ("pre:pin-global", ctx.n(30, 400))):
-        r2 = run(ctx, n, sizes, **({"force_pre": kind[4:]} if kind.startswith("pre:") else
-                                    {"force_kind": kind}))
+                    ("zerocentre", ctx.n(30, 400)), ("domain-edge", ctx.n(90, 1200)),
+                    ("pre:edit-recalc", ctx.n(50, 600)), ("pre:pin-global", ctx.n(30, 400)),
+                    ("pre:bystander", ctx.n(36, 300)), ("pre:display", ctx.n(12, 100))):
+        r2 = run(ctx, n, sizes, independent=(kind in ("domain-edge", "overflow")),
+                 **({"force_pre": kind[4:]} if kind.startswith("pre:") else {"force_kind": kind}))
         res["evaluations"] += r2["evaluations"]
         res["nontrivial"] |= r2["nontrivial"]
         res["failures"] += r2["failures"]
@@ -931,6 +1212,10 @@ def correspond(ctx):
         st = statistical_supplement(ctx)
         res["distribution"]["statistical-supplement (TEST, not proof)"] = st["summary"]
         res["failures"] += st["failures"]
+    st = truncated_supplement(ctx, ctx.n(5, 15), ctx.n(200000, 400000))
+    res["distribution"]["statistical-supplement, formulas undefined on part of the draws (TEST, not proof)"] = \
+        st["summary"]
+    res["failures"] += st["failures"]
     return res
 
 
@@ -1001,7 +1286,8 @@ def reference_check(case, o):
 def _reference_once(case, o):
     """numpy reference of the statement: samples = finite f(mu + sigma (L Z)), mean, n-1 std;
     uncorrelated when the assignment is not positive definite.  Returns a failure or None."""
-    base = {"input": describe(case), "case": case, "oracle": "independent", "kind": "violation"}
+    base = {"input": describe(case), "case": case, "oracle": "independent", "kind": "violation",
+            "order": o.get("order")}
     if "exception" in o:
         return dict(base, signature="c02:{}:exception:{}".format(
             "fallback" if case["kind"] in ("nonpd", "unit") else case["kind"],
@@ -1088,9 +1374,10 @@ def search(ctx, broken):
     sizes = [7, 100]
     n = ctx.n(300, 3000)
     tried = 0
-    for kind in (None, "nonpd", "pd", "unit", "cancel", "partial", "zerocentre", "pre:edit-recalc",
-                 "pre:pin-global"):
-        for _ in range(n // 9):
+    kinds = (None, "nonpd", "pd", "unit", "cancel", "partial", "zerocentre", "domain-edge", "domain-edge",
+             "pre:edit-recalc", "pre:pin-global", "pre:bystander", "pre:display")
+    for kind in kinds:
+        for _ in range(n // len(kinds)):
             c = gen_case(ctx.rng, sizes, **({"force_pre": kind[4:]} if (kind or "").startswith("pre:")
                                             else {"force_kind": kind}))
             o = observe(q, c)
@@ -1099,6 +1386,9 @@ def search(ctx, broken):
             if f:
                 out["failures"].append(f)
     out["strategy"].append("numpy/math reference pipeline on the recorded draws: {} cases".format(tried))
+    st = truncated_supplement(ctx, 5, 200000)
+    out["failures"] += st["failures"]
+    out["strategy"].append("exact moments by quadrature, formulas undefined on part of the draws: " + st["summary"])
     try:
         r = run(ctx, ctx.n(100, 1000), sizes, ref=True)
         for f in r["failures"]:
@@ -1118,14 +1408,36 @@ def replay(ctx, rp):
     c = f.get("case")
     if not c:
         return {"fails": False, "note": "replay file carries no concrete input", "payload": rp}
+    if c.get("supplement") == "truncated":
+        fs = _truncated_case(q, c)
+        return {"fails": bool(fs), "failures": fs}
     if c.get("supplement"):
         fs = _supplement_case(q, c)
         return {"fails": bool(fs), "failures": fs}
-    o = observe(q, c)
-    ind = reference_check(c, o)
-    r = run(ctx, 1, None, cases=[c])
-    fails = bool(ind) or bool(r["failures"])
+    # which row of the offsets the library hands to which source follows the iteration order of a set
+    # of random UUIDs: it differs from process to process, and a failure may depend on it (WHICH
+    # draws leave the domain; whether set order and another order of the identifiers differ).  The
+    # case is therefore observed several times -- new measurement objects, hence new identifiers, each
+    # time -- until the recorded assignment has come up again and at least 8 observations were made
+    # (one source: a single observation); the replay fails when ANY observation fails (on a library
+    # that keeps the property every observation of the case passes)
+    target = f.get("order")
+    # a model regenerated from a changed tree is not known to be correct: the proved reference tables
+    # are used then
+    use_ref = ctx.tables_changed(SECTIONS)
+    seen_target = False
+    for tries in range(60):
+        o = observe(q, c)
+        ind = reference_check(c, o)
+        r = run(ctx, 1, None, cases=[c], obs=[o], ref=use_ref)
+        fails = bool(ind) or bool(r["failures"])
+        if fails:
+            break
+        seen_target = seen_target or not target or "exception" in o or o.get("order") == target
+        if seen_target and (len(o.get("order", [])) <= 1 or tries + 1 >= 8):
+            break
     return {"fails": fails, "independent_oracle": ind, "model_run": r["failures"],
+            "observations": tries + 1,
             "impl": {k: (v if k != "samples" else "{} samples".format(len(v)))
                      for k, v in o.items() if k not in ("calls",)}}
 
@@ -1186,6 +1498,89 @@ def _supplement_case(q, c):
         fs.append(dict(base, signature="c02:stat:variance:" + form, what="Monte Carlo variance is "
                        "outside the 6-sigma band around the exact variance", impl=e * e, expected=var))
     return fs
+
+
+TRUNC = {   # name -> (numpy function, domain)
+    "asin": (np.arcsin, (-1.0, 1.0)), "acos": (np.arccos, (-1.0, 1.0)),
+    "sqrt": (np.sqrt, (0.0, math.inf)), "ln": (np.log, (0.0, math.inf)),
+    "log10": (np.log10, (0.0, math.inf)),
+}
+
+
+def _truncated_moments(name, mu, sg, n=2000000):
+    """mean, variance, fourth central moment of f(X) and P(X in the domain) for X ~ N(mu, sg), by
+    the midpoint rule on the part of the domain within 12 sg of mu (own arithmetic)"""
+    f, (lo, hi) = TRUNC[name]
+    a, b = max(lo, mu - 12 * sg), min(hi, mu + 12 * sg)
+    h = (b - a) / n
+    x = a + (np.arange(n) + 0.5) * h
+    w = np.exp(-0.5 * ((x - mu) / sg) ** 2) / (sg * math.sqrt(2 * math.pi)) * h
+    y = f(x)
+    mass = float(w.sum())
+    m1 = float((y * w).sum() / mass)
+    dlt = y - m1
+    var = float((dlt ** 2 * w).sum() / mass)
+    m4 = float((dlt ** 4 * w).sum() / mass)
+    return m1, var, m4, mass
+
+
+def _truncated_case(q, c):
+    """one source, one operator with a restricted domain: the number of draws kept, the value and
+    the uncertainty against the exact moments of the formula over the draws on which it is defined"""
+    N, name, mu, sg = c["N"], c["fn"], c["mu"], c["sigma"]
+    M.reset(q, N)
+    np.random.seed(c["npseed"])
+    x = q.Measurement(mu, sg)
+    r = {"asin": q.asin, "acos": q.acos, "sqrt": q.sqrt, "ln": q.log, "log10": q.log10}[name](x)
+    r.error_method = q.ErrorMethod.MONTE_CARLO
+    with warnings.catch_warnings():
+        warnings.simplefilter("ignore")
+        v, e = float(r.value), float(r.error)
+        kept = int(r.mc.samples().size)
+    M.reset(q)
+    m1, var, m4, mass = _truncated_moments(name, mu, sg)
+    fs = []
+    base = {"input": "statistical supplement {}({} +/- {}), N={}, numpy seed {}: P(defined) = {:.4f}"
+            .format(name, mu, sg, N, c["npseed"], mass), "case": c, "oracle": "independent",
+            "kind": "violation",
+            "clause": "undefined draws are discarded; agreement with the exact moments within sampling "
+                      "error (TEST)"}
+    if abs(kept - N * mass) > 6 * math.sqrt(N * mass * (1 - mass)) + 1:
+        fs.append(dict(base, signature="c02:stat:kept:" + name, what="the number of draws kept is more "
+                       "than 6 standard deviations from N * P(formula defined): draws on which the "
+                       "formula is undefined must be discarded (and only those)", impl=kept,
+                       expected=N * mass))
+    n_eff = max(kept, 2)
+    if abs(v - m1) > 6 * math.sqrt(var / n_eff) + 1e-6 * abs(m1):
+        fs.append(dict(base, signature="c02:stat:mean:" + name, what="Monte Carlo value is more than 6 "
+                       "standard errors from the exact mean of the formula over its domain", impl=v,
+                       expected=m1))
+    if abs(e * e - var) > 6 * math.sqrt(max(m4 - var * var, 0.0) / n_eff) + 1e-5 * var:
+        fs.append(dict(base, signature="c02:stat:variance:" + name, what="Monte Carlo variance is "
+                       "outside the 6-sigma band around the exact variance of the formula over its "
+                       "domain", impl=e * e, expected=var))
+    return fs
+
+
+def truncated_supplement(ctx, n, N):
+    import qexpy as q
+    rng = ctx.rng
+    failures = []
+    names = sorted(TRUNC)
+    for i in range(n):
+        name = names[i % len(names)]
+        d = rng.uniform(0.5, 2.2)
+        if name in ("asin", "acos"):
+            sg = round(rng.uniform(0.03, 0.12), 3)
+            mu = round(rng.choice([1, -1]) * (1 - d * sg), 4)
+        else:
+            sg = round(rng.uniform(0.05, 0.5), 3)
+            mu = round(d * sg, 4)
+        c = {"supplement": "truncated", "fn": name, "mu": mu, "sigma": sg, "N": N,
+             "npseed": rng.randrange(2 ** 32)}
+        failures += _truncated_case(q, c)
+    return {"failures": failures, "summary": "{} cases (asin, acos, sqrt, ln, log10 of a source 0.5-2.2 "
+            "sigma inside the domain), N={}, 6-sigma on kept count, mean, variance".format(n, N)}
 
 
 def statistical_supplement(ctx):
